@@ -22,6 +22,10 @@ def level(n):
     return LEVEL.get(type(n), 8)
 
 
+# block comments in every closing shape: stars before the closing slash, empty comments, slashes and stars inside, several lines
+COMMENTS = [' /* c */ ', ' /* boxed **/ ', ' /***/ ', ' /**/ ', ' /** doc */ ', ' /* a * b / c */ ', ' /* two\n lines **/ ', ' /****/ ', ' /* x ***/ ']
+
+
 class Printer:
     def __init__(self, rng=None, redundant=False, noise=False):
         self.rng, self.redundant, self.noise = rng, redundant, noise
@@ -41,7 +45,7 @@ class Printer:
         for t in toks:
             out.append(t)
             r = self.rng.random()
-            out.append(' ' if r < 0.6 else ('\n  ' if r < 0.75 else (' /* c */ ' if r < 0.9 else '\t')))
+            out.append(' ' if r < 0.6 else ('\n  ' if r < 0.72 else (self.rng.choice(COMMENTS) if r < 0.9 else '\t')))
         return ''.join(out).rstrip()
 
     def lit(self, v):
@@ -296,6 +300,35 @@ def run(tier, seed):
             res.violation('h06:nonassoc:' + t, 'comparisons are non-associative', {'text': t}, 'accepted', 'ParseError')
         except parser.ParseError:
             pass
+    # every comment shape on its own, in front of, inside and after a statement: the statement parses as without the comment
+    base = parser.parse('SELECT a, b WHERE a > 1')
+    for c in COMMENTS:
+        for text in (f'{c}SELECT a, b WHERE a > 1', f'SELECT a,{c}b WHERE a > 1', f'SELECT a, b WHERE a > 1{c}', f'SELECT a, b{c}WHERE{c}a > 1'):
+            res.case(('comment', text))
+            try:
+                got = parser.parse(text)
+            except Exception as e:  # noqa
+                got = f'{type(e).__name__}: {e}'
+            if got != base:
+                res.violation('h06:comment:' + c.strip()[:20], 'block comments are white space, whatever their closing looks like', {'text': text}, repr(got)[:200], repr(base)[:200])
+    # parsing is a function of the text: what was done with an earlier parse of the same text (compiling it numbers its positional
+    # placeholders in place) does not show in a later parse
+    import copy
+    from harness.common import make_conn
+    for text, params in [('SELECT a, %s FROM #t WHERE a > %s', (1, 0)), ('SELECT %s + %s FROM #t', (1, 2)), ('SELECT a FROM #t WHERE a IN (SELECT a FROM #t WHERE a > %s) AND a < %s', (0, 9))]:
+        res.case(('parse-after-execute', text))
+        first = parser.parse(text)
+        snapshot = copy.deepcopy(first)
+        try:
+            conn = make_conn(t=([('a', int)], [(1,), (2,)]))
+            conn.execute(text, params).fetchall()
+            conn.execute(first, params).fetchall()
+        except Exception as e:  # noqa
+            res.violation('h06:parse-after-execute:run', 'the statement executes', {'text': text}, f'{type(e).__name__}: {e}', 'rows')
+            continue
+        again = parser.parse(text)
+        if again != snapshot:
+            res.violation('h06:parse-after-execute', 'parsing a text yields the same AST whatever was done with an earlier parse of the same text', {'text': text}, repr(again)[:300], repr(snapshot)[:300])
     grammar_identity(res)
     return res.asdict()
 
